@@ -167,7 +167,7 @@ def assign_def(rng, is_async, payload, concrete, dynamic=True):
     d.append(('events', [('go', ev)], True))
     return d
 
-def full_def(is_async, payload, concrete, dynamic=True, ptype='Pay', data=True):
+def full_def(is_async, payload, concrete, dynamic=True, ptype='Pay', data=True, initial='Idle'):
     """deterministic: every hook kind at event and at transition level, with and without an around callback,
     an unless-only edge, a multi-source and a superstate-source transition, a superstate target, data on leaves at
     two depths and on two nested superstates, a self-transition of a data state — in one of the four generated shapes"""
@@ -184,7 +184,7 @@ def full_def(is_async, payload, concrete, dynamic=True, ptype='Pay', data=True):
         d.append(('async', True))
     if dynamic:
         d.append(('dynamic', True))
-    d.append(('initial', 'Idle'))
+    d.append(('initial', initial))
     d.append(('states', [('leaf', 'Idle', DT),
                          ('sup', 'Flight', DT, [('state', 'Launch', None),
                                                    ('sup', 'Outer', DT, [('state', 'HalfOpen', DT), ('state', 'Busy', None),
